@@ -1,3 +1,4 @@
 import Mappy.Base
 import Mappy.Driver
 import Mappy.Props.C17
+import Mappy.Props.C18
